@@ -2,3 +2,4 @@
 import ImmuModel.Tx.RecordRoundTrip
 import ImmuModel.Tx.RecordAuth
 import ImmuModel.Tx.RecordTotal
+import ImmuModel.Tx.ValueCacheProofs
